@@ -33,6 +33,8 @@ func DefaultTrack() *TrackSpec {
 	t.Maps["Shard.hashmap"] = true
 	t.Maps["Group.m"] = true
 	t.Slices["PolicyBuffers.Returned"] = true
+	t.Slices["CountMinSketch.Table"] = true // policy lock
+	t.Slices["Store.writeBuffer"] = true    // the policy goroutine's own batch
 	return t
 }
 
